@@ -53,6 +53,10 @@ def specs(shape):
     for m, md in enumerate(shape["methods"]):
         term = lambda t: ("obj",) if t == n else ("K", t)  # noqa: E731
         body = f"if RAISE[0]:\n    raise EXC[{m}]\nreturn RET[{m}]"
+        if md.get("rewritten"):
+            # mentions recurse (never executed): the method goes through ovld's source rewriter, which must carry over
+            # defaults, keyword-only defaults and annotations
+            body = f"if RAISE[0] == 'never':\n    return recurse()\n" + body
         out.append(dict(pos=[(nm, term(t), opt) for nm, t, opt in md["pos"]], posonly=md.get("posonly", 0),
                         kw=[(nm, term(t), opt) for nm, t, opt in md.get("kw", [])], body=body,
                         selfarg=shape.get("selfarg", False)))
@@ -86,6 +90,7 @@ def make_run(W, shape, known_active=None):
     slf = shape.get("selfarg", False)
     calls = shape["calls"]
     allkw = sorted({nm for md in methods for nm, _, _ in md.get("kw", [])})
+    kwfirst = allkw[0] if allkw else "k"
     uniform = shape.get("uniform", True)
 
     def rule_for(nargs, kwnames, poskw):
@@ -211,7 +216,7 @@ def gen_shapes(tier, seed):
         M = rng.choice((1, 2, 2, 3))
         uniform = rng.random() < 0.6
         selfarg = rng.random() < 0.3
-        kwpool = ["k", "j"]
+        kwpool = rng.choice((["k", "j"], ["k", "j"], ["k", "type"], ["method", "j"]))   # (names the generated entry point uses itself)
         methods = []
         maxpos = 0
         for m in range(M):
@@ -227,7 +232,7 @@ def gen_shapes(tier, seed):
                     kw.append([nm, rng.randrange(n + 1), False])
                 elif r < 0.6:
                     kw.append([nm, rng.randrange(n + 1), True])
-            methods.append(dict(pos=pos, posonly=posonly, kw=kw))
+            methods.append(dict(pos=pos, posonly=posonly, kw=kw, rewritten=rng.random() < 0.5))
             maxpos = max(maxpos, npos)
         calls = []
         for nargs in range(0, maxpos + 1):
@@ -248,7 +253,7 @@ def gen_shapes(tier, seed):
                 # rule; if the dispatcher accepts it, the keyword must still arrive)
                 for k in range(1, len(names)):
                     calls.append([nargs, [], names[k:], 0, False])
-                    calls.append([nargs, ["k"] if "k" in [n_ for md in methods for n_, _, _ in md["kw"]] else [], names[k:k + 1], 0, False])
+                    calls.append([nargs, [kwpool[0]] if kwpool[0] in [n_ for md in methods for n_, _, _ in md["kw"]] else [], names[k:k + 1], 0, False])
         rng.shuffle(calls)
         gaps = [c for c in calls if c[2] and not c[4]][:3]
         calls = gaps + [c for c in calls if c not in gaps][: 12 - len(gaps)]
@@ -276,7 +281,7 @@ def main(tier, seed):
     return runner.finish(
         PID, tier, seed, t0, results,
         bounds=dict(classes=3, methods="1-3", positionals="0-2 (3 thorough), required/optional/positional-only, uniform or differing names",
-                    keyword_only="subset of {k, j}, required or optional", receivers="functions and methods with self",
+                    keyword_only="two keyword names per set from {k, j, type, method}, required or optional", receivers="functions and methods with self",
                     calls="<= 10 call shapes per signature set: number of positionals x subset of keywords (+ uniformly named positionals "
                           "as keywords); a third of them make the method raise", signature_sets="random sample (seeded)"),
         rule="one state = one signature set x class of (hierarchy, priorities); non-trivial = at least one call ran a method",
